@@ -12,6 +12,7 @@ import ZlModel.Codec
 import ZlModel.Ip
 import ZlModel.Rsa
 import ZlModel.Tld
+import ZlModel.Config
 open Zl Zl.Proto
 
 namespace Zl.Driver
@@ -259,6 +260,70 @@ def opTld (kind : String) (fields : List String) : String :=
     toString (tldLint ((unhexBytes cn).getD []) (ip == "1") ((splitList dns ",").map (fun h => (unhexBytes h).getD [])) ⟨intOf sec, 0⟩)
   | _, _ => "bad-op"
 
+
+/-! ### configuration ops -/
+
+def probeSpec : CfgSpec := { fields := [⟨"A", .int, "7"⟩, ⟨"B", .bool, "false"⟩, ⟨"S", .str, "d"⟩] }
+def probeGSpec : CfgSpec := { fields := [⟨"A", .int, "7"⟩], globals := ["Global"] }
+
+def parseKind (s : String) : TKind :=
+  match s with
+  | "int" => .int | "bool" => .bool | "str" => .str | "float" => .float | "array" => .array | _ => .table
+
+def parseSection (s : String) : Section :=
+  if s == "absent" then .absent
+  else if s == "nat" then .notATable
+  else
+    let body := dropS s 4
+    .table ((splitList body ",").filterMap (fun f => match f.splitOn ":" with
+      | [k, kind, h] => some (k, ⟨parseKind kind, (unhex h).getD ""⟩)
+      | _ => none))
+
+def parseDoc (s : String) : Doc :=
+  let entries := (splitList s ";").filterMap (fun e => match e.splitOn "=" with
+    | [k, v] => some (k, parseSection v)
+    | _ => none)
+  fun ns => match entries.find? (fun p => p.1 == ns) with
+    | some p => p.2
+    | none => .absent
+
+def showProbe (full : Bool) (r : Except String (List (String × String))) : String :=
+  match r with
+  | .error _ => "err"
+  | .ok vals =>
+    let get (k : String) := (vals.find? (fun p => p.1 == k)).map (·.2) |>.getD "?"
+    if full then "ok A=" ++ get "A" ++ ";B=" ++ get "B" ++ ";S=" ++ hexOf (get "S") else "ok A=" ++ get "A"
+
+def opCfg (fields : List String) : String :=
+  match fields with
+  | [kind, docS] =>
+    let doc := parseDoc docS
+    let p1 := "e_cfg_probe=" ++ showProbe true (configure doc probeSpec "e_cfg_probe")
+    let p2 := "e_cfg_probe2=" ++ showProbe true (configure doc probeSpec "e_cfg_probe2")
+    let pg := "e_cfg_probeg=" ++ showProbe false (configure doc probeGSpec "e_cfg_probeg")
+    -- e_other is not Configurable: whatever its namespace holds, it passes
+    let other := match maybeConfigure doc none "e_other" with | .ok _ => "e_other=3" | .error _ => "e_other=7"
+    if kind == "cert" then "r " ++ "|".intercalate [p1, p2, pg, other] else "r " ++ "|".intercalate [p1, p2, other]
+  | _ => "bad-op"
+
+def seqDoc (id : String) : Doc :=
+  match id with
+  | "d1" => fun ns => if ns == "e_cfg_probe" then .table [("A", ⟨.int, "1"⟩)] else .absent
+  | "d2" => fun ns => if ns == "e_cfg_probe" then .table [("A", ⟨.int, "2"⟩), ("B", ⟨.bool, "true"⟩)] else .absent
+  | "d3" => fun ns => if ns == "e_cfg_probe" then .notATable else .absent
+  | "d4" => fun ns => if ns == "unrelated" then .table [("x", ⟨.int, "1"⟩)] else .absent
+  | _ => fun _ => .absent
+
+def opCfgSeq (fields : List String) : String :=
+  match fields with
+  | [seq] =>
+    let ops : List (CfgOp String) := (splitList seq ",").filterMap (fun o =>
+      if o == "F" then some .filter else if o == "L1" then some .lint1 else if o == "L2" then some .lint2
+      else if o.startsWith "S1:" then some (.set1 (dropS o 3)) else if o.startsWith "S2:" then some (.set2 (dropS o 3)) else none)
+    let seen := cfgRun ⟨"d0", "d0"⟩ ops
+    "s " ++ "|".intercalate (seen.map (fun d => showProbe true (configure (seqDoc d) probeSpec "e_cfg_probe")))
+  | _ => "bad-op"
+
 def step (line : String) : String :=
   match line.splitOn "\t" with
   | "fw" :: rest => opFw rest
@@ -273,6 +338,8 @@ def step (line : String) : String :=
   | "tld" :: rest => opTld "tld" rest
   | "tldin" :: rest => opTld "tldin" rest
   | "tldlint" :: rest => opTld "tldlint" rest
+  | "cfg" :: rest => opCfg rest
+  | "cfgseq" :: rest => opCfgSeq rest
   | "enc" :: rest => opEnc rest
   | "dec" :: rest => opDec rest
   | "src" :: rest => opSrc rest
